@@ -1185,6 +1185,25 @@ class ExprMixin(object):
                         for r in self.getitem(st2, u, idx, fr):
                             yield r
             return
+        if k == 'obj' and base.ty.args[0] in getattr(self.world, 'tuple_records', {}):
+            # immutable tuple-shaped record of the structure tables: index -> named field
+            fields = self.world.tuple_records[base.ty.args[0]]
+            if not (idx.is_py and isinstance(idx.py, int)):
+                raise OutOfReach('symbolic index into a %s record' % base.ty.args[0])
+            i = idx.py
+            alen = self.record_len(st, base)
+            if alen is None:
+                if not -len(fields) <= i < len(fields):
+                    yield self.raise_(st, IndexError, 'tuple index out of range')
+                    return
+                yield self.read_field(st, base, fields[i])
+                return
+            for st1, b in self.branch(st, alen > (i if i >= 0 else -i - 1)):
+                if b:
+                    yield self.read_field(st1, base, fields[i])
+                else:
+                    yield self.raise_(st1, IndexError, 'tuple index out of range')
+            return
         if k == 'obj':
             for r in self.call_method(st, base, '__getitem__', [idx], {}, fr):
                 yield r
@@ -1193,6 +1212,13 @@ class ExprMixin(object):
             yield self.raise_(st, TypeError, "'NoneType' object is not subscriptable")
             return
         raise OutOfReach('subscript on %r' % (base,))
+
+    def record_len(self, st, base):
+        """symbolic length of a variable-arity record (RefStruct: 2 or 6), None for fixed arity"""
+        if self.world.field_type(base.ty.args[0], '_len') is None:
+            return None
+        st1, v = self.read_field(st, base, '_len')
+        return v.term
 
     def slice(self, st, base, lo, hi, fr):
         def bound(x, n, default):
@@ -1578,6 +1604,16 @@ class ExprMixin(object):
                     yield st1, items
                 else:
                     yield self.raise_(st1, ValueError, 'unpack')
+            return
+        if k == 'obj' and val.ty.args[0] in getattr(self.world, 'tuple_records', {}):
+            fields = self.world.tuple_records[val.ty.args[0]]
+            if len(fields) != n or self.record_len(st, val) is not None:
+                raise OutOfReach('unpacking a %s record into %d names' % (val.ty.args[0], n))
+            items = []
+            for f in fields:
+                st, u = self.read_field(st, val, f)
+                items.append(u)
+            yield st, items
             return
         if k == 'opt':
             for st1, b in self.branch(st, self.is_none(val)):
